@@ -1,3 +1,6 @@
 //! vx-ref: independent oracles written from PS3.5 / PS3.8 / PS3.18, with no dicom-rs dependency.
 pub mod ds;
+pub mod lut;
 pub mod pdu;
+pub mod pix;
+pub mod rle;
